@@ -2,26 +2,31 @@ PROP = dict(
         coq="Properties/C13.v",
         workloads=[
             dict(name="locker-collector-random", go_test="TestC13", runner="C13",
-                 env=dict(quick=dict(VERIF_CASES=500), thorough=dict(VERIF_CASES=12000))),
+                 env=dict(quick=dict(VERIF_CASES=300), thorough=dict(VERIF_CASES=12000))),
         ],
-        rule="case = (2 apps x 3 assets, 3 users with random balances incl. > int64, a mostly-valid setup prefix of collector lookup tables / "
-             "locker + reward whitelists / auction-mapping flags, then 20-50 ops mixing locker create/deposit/withdraw/close/reward-calc "
-             "(boundary amounts: 1, net balance, net balance +-1, 1e20), real vault create/draw/repay/close/deposit-and-draw messages that pay "
-             "fees into the collector, time advances 0 s..1 y, savings-rate changes (WasmUpdateCollectorLookupTable), ESM / breaker switches, "
-             "GetAmountFromCollector / DecreaseNetFeeCollectedData / WasmMsgGetSurplusFund, generation-1 and generation-2 surplus / debt "
-             "auction starts, bids and closes and generation-2 liquidations with a full dutch bid); "
+        rule="cases 0-2 = directed witnesses on the real keepers (generation-2 liquidation + full dutch bid; generation-2 surplus auction start/bid/close; "
+             "generation-2 debt auction start/bid/close); other cases = (2 apps x 3 assets, 3 users with random balances incl. > int64, a mostly-valid setup prefix of "
+             "collector lookup tables / locker + reward whitelists / auction-mapping flags, then 20-50 ops mixing locker create/deposit/withdraw/close/reward-calc "
+             "(boundary amounts: 1, net balance, net balance +-1, 1e20), real vault create/draw/repay/close/deposit-and-draw messages that pay fees into the collector, "
+             "plain fee inflows (coins + UpdateCollector), time advances 0 s..1 y, savings-rate changes (WasmUpdateCollectorLookupTable), ESM / breaker switches, "
+             "GetAmountFromCollector / DecreaseNetFeeCollectedData / WasmMsgGetSurplusFund, and in 30 % of the cases a concentration on the real auction flows: "
+             "generation-1 SurplusActivator / DebtActivator (start, restart, close with bids, close under ESM), bids, generation-2 CheckStatsForSurplusAndDebt, english bids, "
+             "CloseEnglishAuction for surplus and debt initiators, generation-2 vault liquidations settled by a full dutch bid); "
              "non-trivial = at least 2 successful locker money ops and 1 successful collector in/outflow in the case; "
              "distinct by digest of the op sequence (ops + env values + result classes)",
         modelled=["reward amounts: the Dec returned by rewards.CalculationOfRewards is an env input recorded by the harness by calling the real function on the operands read before the op (its arithmetic is C18's subject)",
-                  "fee amounts of vault messages: the coins that arrived at the collector account in the message (env; the fee arithmetic is C02/C03/C18's subject)",
-                  "auction internals (bids, prices, winners): lot / bid amounts are read from the auction record before the close (C10/C11's subject); the auction module accounts and bidders are one unconstrained outside account",
+                  "fee amounts of vault messages and the generation-2 liquidation penalty: the coins that arrived at the collector account in the message (env; the fee / penalty arithmetic is C02/C03/C18/C10's subject)",
+                  "auction internals (bids, prices, winners, restarts, tokenmint burn / mint): lot / bid amounts are read from the auction record before the close (C10/C11's subject); the auction module accounts and bidders are one unconstrained outside account; a close / CheckStats call that fails for a reason inside the auction module is replayed as 'state unchanged' (projection still diffed)",
+                  "the generation-1 dutch close penalty (V1Penalty) and the generation-2 TriggerEsm penalty are modelled and proved but not driven by the harness (same SetNetFeeCollectedData call shape as the driven generation-2 dutch close); esm.go's burn-and-decrease of net fees is covered only through its book half (DecreaseNetFeeCollectedData)",
                   "sdk.Int 256-bit overflow panics (amounts stay far below 2^255)"],
         assumptions=["block time never decreases", "WasmMsgGetSurplusFund is called with the coin denom of the asset it names (the contract supplies both)",
-                     "DecreaseNetFeeCollectedData is never called with a negative amount (none of its call sites can)"],
+                     "DecreaseNetFeeCollectedData is never called with a negative amount (none of its call sites can)",
+                     "DecreaseNetFeeCollectedData called on its own (only the harness does; in /repo it always follows a transfer or a burn out of the collector) lowers the books without moving coins: for it the flow clause is 'books fall, coins do not move' rather than equality",
+                     "users are plain accounts distinct from the module accounts (model: account ids >= 0)"],
     )
 
 MANIFEST = dict(
-    level_text="Locker invariants (deposited(app,asset) = sum of the net balances of its lockers; lockerV1 custody >= every finite sum of deposited totals; a withdrawal pays exactly the requested amount, a close exactly the post-reward net balance) and collector invariants (net fees never negative; per-op table of net-fee deltas; collectorV1 custody >= every finite sum over apps of net fees) proved by induction over every finite history of the modelled ops; the collector backing is proved for histories without the generation-2 dutch penalty / surplus close / debt close ops, for which refutation witnesses are proved and replayed on the real keepers (known findings). The model is tied to /repo by a differential run of the real locker / vault message servers and collector / rewards / auction / liquidation keepers on every check.",
+    level_text="Locker invariants (deposited(app,asset) = sum of the net balances of its lockers; lockerV1 custody >= the lockers' balances >= every duplicate-free sum of deposited totals; a withdrawal pays exactly the requested amount, a close exactly the post-reward net balance and removes the locker) and collector invariants (net fees never negative; per-op table of book deltas AND collector coin deltas for every op; outside the known-finding classes book and coins move by the same amount in the same asset; collectorV1 custody >= every duplicate-free sum over apps of net fees; the savings-rate change lowers net fees by exactly what the lockers are credited) proved by induction over every finite history of the 25 modelled ops. The collector backing and the exact-flow clause are proved for histories without the generation-2 surplus close (kf_C13_2) and debt close (kf_C13_3) ops, for which refutation witnesses are proved and replayed on the real keepers on every run (known findings C13-F2, C13-F3); the generation-2 penalty defect C13-F1 is repaired (fixes/C13-F1) and its class removed. The model is tied to /repo by a differential run of the real locker / vault message servers and collector / rewards / auction / auctionsV2 / liquidationsV2 keepers on every check.",
     design_ref="DESIGN.md section 4 C13",
     level_note="Trusted: Coq kernel, extraction (ExtrOcamlBasic), OCaml runner, Go harness. Reward / fee / auction amounts are environment inputs (subjects of C18, C02/C03, C10/C11). No axioms (Closed under the global context).",
     technique="Coq proof (invariants by induction over op histories, per-op delta table) + model/implementation correspondence run",
